@@ -22,6 +22,8 @@ Families (--family NAME, default all, one copy per family):
   del-to-pop      del X[k]                   ->  X.pop(k)
   return-bool     if T: return True [else:] return False  ->  return bool(T);  with False / True  ->  return not T
   suppress        try: BODY except E: pass   ->  with contextlib.suppress(E): BODY
+  with-to-acquire with L: BODY (L a lock)    ->  L.acquire(); try: BODY finally: L.release()
+  guard-clause    def f(): PRE; if C: BODY   ->  def f(): PRE; if not C: return; BODY     (the if ends the function, no else)
   pos-to-kw       f(a, b, c) -> f(a, y=b, z=c)   for calls of module-level repository functions (resolved by unique name)
   kw-to-pos       f(a, y=b) -> f(a, b)           where the keyword is the next parameter and the first keyword written
 Usage: tools/syntax_variants.py [--family F]... [--per-file] [--validate] [path prefixes, default proxy/]
@@ -352,6 +354,48 @@ class Suppress(ast.NodeTransformer):
         return node
 
 
+class WithToAcquire(ast.NodeTransformer):
+    """with L: BODY  ->  L.acquire(); try: BODY finally: L.release()     for a lock (a name / attribute chain whose last part contains
+    "lock", no `as` target): what the with statement does for threading / multiprocessing locks"""
+    n = 0
+
+    def visit_With(self, node: ast.With) -> ast.AST:
+        self.generic_visit(node)
+        if len(node.items) == 1 and node.items[0].optional_vars is None:
+            e = node.items[0].context_expr
+            last = e.attr if isinstance(e, ast.Attribute) else e.id if isinstance(e, ast.Name) else ''
+            x = e
+            while isinstance(x, ast.Attribute):
+                x = x.value
+            if 'lock' in last.lower() and isinstance(x, ast.Name):
+                self.n += 1
+                acq = ast.Expr(value=ast.Call(func=ast.Attribute(value=copy.deepcopy(e), attr='acquire', ctx=ast.Load()), args=[], keywords=[]), lineno=node.lineno)
+                rel = ast.Expr(value=ast.Call(func=ast.Attribute(value=copy.deepcopy(e), attr='release', ctx=ast.Load()), args=[], keywords=[]), lineno=node.lineno)
+                return [acq, ast.Try(body=node.body, handlers=[], orelse=[], finalbody=[rel], lineno=node.lineno)]
+        return node
+
+
+class GuardClause(ast.NodeTransformer):
+    """def f(): PRE; if C: BODY     ->     def f(): PRE; if not C: return; BODY       (the if is the last statement of the function and has no else)"""
+    n = 0
+
+    def _fn(self, node: ast.AST) -> ast.AST:
+        self.generic_visit(node)
+        b = node.body      # type: ignore[attr-defined]
+        if b and isinstance(b[-1], ast.If) and not b[-1].orelse and not any(isinstance(x, (ast.Yield, ast.YieldFrom)) for x in ast.walk(node)) and \
+                not any(isinstance(x, ast.NamedExpr) for x in ast.walk(b[-1].test)):
+            last = b[-1]
+            self.n += 1
+            node.body = b[:-1] + [ast.If(test=neg(last.test), body=[ast.Return(value=None)], orelse=[], lineno=last.lineno)] + last.body      # type: ignore[attr-defined]
+        return node
+
+    def visit_FunctionDef(self, node: ast.FunctionDef) -> ast.AST:
+        return self._fn(node)
+
+    def visit_AsyncFunctionDef(self, node: ast.AsyncFunctionDef) -> ast.AST:
+        return self._fn(node)
+
+
 class _CallRewriter(ast.NodeTransformer):
     """base for the two argument-spelling families: only calls of MODULE-LEVEL functions of the repository, resolved by the name the
     calling module imports or defines (methods are left alone: dynamic dispatch may reach an override with other parameter names)"""
@@ -429,7 +473,7 @@ FAMILIES = {
     'not-form': NotForm, 'return-temp': ReturnTemp, 'test-temp': TestTemp, 'wrap-else': WrapElse, 'unwrap-else': UnwrapElse,
     'swap-branches': SwapBranches, 'swap-ifexp': SwapIfExp, 'nest-and': NestAnd, 'demorgan': DeMorgan,
     'flip-compare': FlipCompare, 'is-not': IsNot, 'len-zero': LenZero, 'aug-assign': AugAssign,
-    'del-to-pop': DelToPop, 'return-bool': ReturnBool, 'suppress': Suppress,
+    'del-to-pop': DelToPop, 'return-bool': ReturnBool, 'suppress': Suppress, 'with-to-acquire': WithToAcquire, 'guard-clause': GuardClause,
 }
 
 
